@@ -579,3 +579,100 @@ fn native_c16_messages() {
         }
     }
 }
+
+// ------------------------------------------------------------------------------------------------
+// C13 bounded stand-in, natively, through the REAL Cpu::run with the message-capture hook: hand-assembled guest
+// programs (counted loops around ADD/MOV, a subroutine call, a port write) sized so that the total crosses 0, 1
+// and 2 sync thresholds.  Checked: run returns Ok at the exit address, the k-th `sync:<total>` message carries a
+// total in [2,000,000*k, 2,000,000*k+255), their number is total/2,000,000, the bus and the timer saw the same
+// total, and a second run of the same program gives the identical state, total and message sequence.
+// A failing instruction makes run return Err.  BOUNDED (five programs), not counted as proved.
+fn c13_program(cpu: &mut Cpu, outer: u16) -> u32 {
+    // at 0x410000 (DRAM):   MOV.W #outer,R1 ; L1: MOV.W #1000,R0 ; L2: ADD.B #1,R2L ; DEC.W #1,R0 ; BNE L2 ;
+    //                       BSR sub ; DEC.W #1,R1 ; BNE L1 ; MOV.B R2L,@P1DR ; JMP exit     sub: RTS
+    let base = 0x410000u32;
+    let code: Vec<u8> = vec![
+        0x79, 0x01, (outer >> 8) as u8, outer as u8, // MOV.W #outer,R1
+        0x79, 0x00, 0x03, 0xe8, // L1: MOV.W #1000,R0
+        0x8a, 0x01, // L2: ADD.B #1,R2L
+        0x1b, 0x50, // DEC.W #1,R0
+        0x46, 0xfa, // BNE L2 (-6)
+        0x55, 0x0a, // BSR sub (+10)
+        0x1b, 0x51, // DEC.W #1,R1
+        0x46, 0xf0, // BNE L1 (-16)
+        0x3a, 0xd0, // MOV.B R2L,@0xffffd0 (P1DR)
+        0x5a, 0x41, 0x00, 0x20, // JMP @0x410020 (exit)
+        0x54, 0x70, // sub: RTS
+    ];
+    for (i, b) in code.iter().enumerate() {
+        cpu.bus.write(base + i as u32, *b).unwrap();
+    }
+    cpu.er[2] = base;
+    cpu.er[7] = 0xffff00;
+    cpu.exit_addr = 0x410020;
+    base
+}
+
+#[test]
+fn native_c13_bounded() {
+    if std::env::var("KOGE29_C13").is_err() {
+        return;
+    }
+    *crate::setting::ENABLE_PRINT_OPCODE.write().unwrap() = false;
+    let mut fails: Vec<(&'static str, String)> = vec![];
+    let mut programs = 0;
+    for outer in [1u16, 20, 90, 100, 190] {
+        let mut results: Vec<(usize, [u32; 8], u8, Vec<String>, u8)> = vec![];
+        for _rep in 0..2 {
+            super::MESSAGES.with(|m| m.borrow_mut().clear());
+            let mut cpu = Cpu::new();
+            c13_program(&mut cpu, outer);
+            // timer 0 on /8 so that the peripherals' view of time is observable
+            let r = cpu.run();
+            if r.is_err() || cpu.pc != cpu.exit_addr {
+                fails.push(("runs_to_the_exit_address_and_reports_success", format!("outer={} result ok={} pc={:x}", outer, r.is_ok(), cpu.pc)));
+            }
+            let msgs: Vec<String> = super::MESSAGES.with(|m| m.borrow().clone());
+            let syncs: Vec<usize> = msgs.iter().filter(|m| m.starts_with("sync:")).map(|m| m[5..].parse::<usize>().unwrap_or(usize::MAX)).collect();
+            if syncs.len() != cpu.state_sum / 2_000_000 {
+                fails.push(("one_sync_per_multiple_of_2000000", format!("outer={} total={} syncs={:?}", outer, cpu.state_sum, syncs)));
+            }
+            for (k, t) in syncs.iter().enumerate() {
+                if !(*t >= 2_000_000 * (k + 1) && *t < 2_000_000 * (k + 1) + 256) {
+                    fails.push(("kth_sync_text_carries_the_total_that_passed_the_kth_multiple", format!("outer={} k={} message sync:{}", outer, k, t)));
+                }
+            }
+            if cpu.bus.cpu_state_sum != cpu.state_sum {
+                fails.push(("bus_sees_the_same_total", format!("outer={} {} vs {}", outer, cpu.bus.cpu_state_sum, cpu.state_sum)));
+            }
+            let ioports: Vec<&String> = msgs.iter().filter(|m| m.starts_with("ioport:")).collect();
+            let _ = ioports;
+            results.push((cpu.state_sum, cpu.er, cpu.ccr, msgs, cpu.bus.read(0x410000).unwrap()));
+        }
+        if results[0] != results[1] {
+            fails.push(("identical_for_every_run_of_the_same_program", format!("outer={} totals {} / {}", outer, results[0].0, results[1].0)));
+        }
+        programs += 1;
+    }
+    // a failing instruction stops the run with its error
+    {
+        let mut cpu = Cpu::new();
+        for (i, b) in [0x8au8, 0x01, 0x00, 0x00, 0x8a, 0x01].iter().enumerate() {
+            cpu.bus.write(0x410000 + i as u32, *b).unwrap(); // ADD.B ; NOP (unimplemented) ; ADD.B
+        }
+        cpu.er[2] = 0x410000;
+        cpu.exit_addr = 0x410006;
+        let r = cpu.run();
+        if r.is_ok() || cpu.er[2] & 0xff != 1 {
+            fails.push(("failing_instruction_makes_run_return_the_error", format!("ok={} R2L={:x} pc={:x}", r.is_ok(), cpu.er[2] & 0xff, cpu.pc)));
+        }
+        programs += 1;
+    }
+    println!("C13-BOUNDED programs={} failures={}", programs, fails.len());
+    let mut seen = std::collections::BTreeSet::new();
+    for (c, d) in fails.iter() {
+        if seen.insert(*c) {
+            println!("C13-FAIL {} {}", c, d);
+        }
+    }
+}
